@@ -148,6 +148,12 @@ MALFORMED = [
 ]
 
 
+USED_PARSER_SCRIPT = [
+    "(set-logic QF_LRA)(declare-fun zz9 () Real)(define-fun kk9 ((tt9 Real)) Real (+ tt9 1.5))(assert (! (> (kk9 zz9) 2) :named ww9))(check-sat)",
+    "(set-logic QF_BV)(declare-fun xx9 () (_ BitVec 4))(define-fun qq9 () Bool (bvult xx9 #x3))(push 1)(assert qq9)(check-sat)",
+]
+
+
 def cases(tier):
     out = []
     for k, t in enumerate(TERMS):
@@ -216,6 +222,23 @@ def check_in_env(env, case, timeout_ms=8000):
         zerr = None
     except z3.Z3Exception as e:
         zs, zerr = None, e
+    # the same text on a parser object that has already read another script (with another logic and its own declarations,
+    # definitions and named terms): must be read exactly as by a fresh parser
+    try:
+        from pysmt.smtlib.parser import SmtLibParser
+        with warnings.catch_warnings():
+            warnings.simplefilter("ignore")
+            used = SmtLibParser(env)
+            used.get_script(io.StringIO(USED_PARSER_SCRIPT[len(cid) % 2]))
+            pf2 = used.get_script(io.StringIO(text)).get_last_formula()
+        perr2 = None
+    except Exception as e:
+        pf2, perr2 = None, e
+    if (perr is None) != (perr2 is None) or (perr is None and pf2 is not pf):
+        return {"name": name, "status": "viol", "signature": "import/used-parser/%s" % cid.split("/")[0],
+                "describe": "%s: %r is read as %s by a fresh parser and as %s by a parser that has read another script before" %
+                            (cid, src, pf.serialize()[:150] if pf is not None else repr(perr),
+                             pf2.serialize()[:150] if pf2 is not None else repr(perr2)), "replay": rp}
     if perr is not None:
         if cid in _ALLOW:
             return {"name": name, "status": "viol", "signature": "import/no-longer-accepted/%s" % cid.split("/")[0],
